@@ -3,8 +3,9 @@
 // Monitor 1 (key laws): the real util.FormatKey / ParseKey / PoolPrefix / PoolAppPrefix over batches of generated pods:
 // injectivity of KeyInDB on (namespace, name), ParseKey round trip, prefix laws.
 // Monitor 2 (API laws): the real api.Controller over a real FloatingIPPlugin/crdIpam (fake clientsets), mounted in
-// go-restful as server.startAPIServer does and served by httptest: paging exactly-once, list -> release agreement,
-// cross-owner posts never free anything.
+// go-restful as server.startAPIServer does and served by httptest: paging exactly-once, list -> release agreement
+// (one entry per request, all releasable entries of a page in one request, mixed batches), cross-owner posts never
+// free anything.
 package main
 
 import (
@@ -170,7 +171,10 @@ func main() {
 		"api_release_posted_statefulset-pod_verbatim", "api_release_posted_statefulset-pod_apptype-omitted",
 		"api_release_posted_barepod_verbatim", "api_release_posted_deployment-pod_verbatim",
 		"api_release_posted_app-prefix_verbatim", "api_release_posted_pool-prefix_verbatim",
-		"api_unreleasable_posted_reserved-freetext", "api_unreleasable_posted_free"}
+		"api_unreleasable_posted_reserved-freetext", "api_unreleasable_posted_free",
+		"api_shared_key_groups_app-prefix", "api_shared_key_groups_pool-prefix", "api_batch_posts_mixed",
+		"api_batch_posts_page-size-9999", "api_batch_posts_with_entries_sharing_key", "api_batch_shared_key_app-prefix",
+		"api_batch_shared_key_pool-prefix", "api_mixed_batch_foreign_entries"}
 	for _, k := range need {
 		if run.Counter(k) == 0 {
 			run.Inconclusive("counter " + k + " is zero: the situation was never observed")
